@@ -20,7 +20,7 @@ EXPLANATION = (
     'outermost-wins of coding.permission; (e) no non-idempotent release '
     'without acquire; (f) one thread-local key per setting and getters read '
     'the key their scope sets.  Interleavings are not explored.')
-FLOORS = {'C17.a': 14, 'C17.b': 5, 'C17.c': 14, 'C17.d': 1, 'C17.e': 5, 'C17.f': 14}
+FLOORS = {'C17.a': 7, 'C17.b': 2, 'C17.c': 7, 'C17.d': 1, 'C17.e': 2, 'C17.f': 7}
 FILES = [
     'pyglove/core/utils/thread_local.py', 'pyglove/core/symbolic/flags.py',
     'pyglove/core/utils/contextual.py', 'pyglove/core/utils/formatting.py',
@@ -84,9 +84,9 @@ class Op:
     return f'{self.kind}({self.key})@{getattr(self.site, "lineno", 0)}'
 
 
-def ops_at(node) -> List[Op]:
+def _ops_of_exprs(node, roots) -> List[Op]:
   out = []
-  for e in node.exprs():
+  for e in roots:
     for n in A.walk_local(e):
       if isinstance(n, ast.Call):
         d = A.call_name(n)
@@ -123,6 +123,85 @@ def ops_at(node) -> List[Op]:
         for t in n.targets:
           if isinstance(t, ast.Subscript):
             out.append(Op('del_sub', A.unparse(t.value), node, n))
+  return out
+
+
+_INLINE = {}     # (index id) -> context for helper inlining
+
+
+def set_inline_context(idx, func):
+  _INLINE['ctx'] = (idx, func)
+
+
+def _subst(text, mapping):
+  """Substitute whole-identifier parameter names in an expression text."""
+  import re
+  for k, v in mapping.items():
+    text = re.sub(r'(?<![\w.])' + re.escape(k) + r'(?![\w])', v, text)
+  return text
+
+
+def ops_at(node) -> List[Op]:
+  """State operations performed at a CFG node, including those of a small
+  private helper it calls (one level): the helper's operations are reported at
+  the call node with the helper's parameters replaced by the call arguments,
+  but only operations the helper performs on EVERY path count (must-pass)."""
+  out = _ops_of_exprs(node, node.exprs())
+  ctx = _INLINE.get('ctx')
+  if ctx is None:
+    return out
+  idx, func = ctx
+  cls = idx.enclosing_class(func)
+  for call in node.calls():
+    d = A.call_name(call)
+    if not d or d.split('.')[-1] in TLS_FUNCS:
+      continue
+    callee = None
+    offset = 0
+    parts = d.split('.')
+    if parts[0] == 'self' and len(parts) == 2 and cls is not None:
+      callee = idx.lookup_method(cls.fq, parts[1])
+      offset = 1
+    elif len(parts) == 1:
+      r = idx.resolve_name_in_func(func, d, call)
+      callee = idx.find_func(r) if r else None
+    if callee is None or callee is func or len(list(ast.walk(callee.node))) > 400:
+      continue
+    if any(isinstance(x, (ast.Yield, ast.YieldFrom)) for x in ast.walk(callee.node)):
+      continue
+    ps = A.param_names(callee.node)
+    mapping = {}
+    for i, a in enumerate(call.args):
+      if i + offset < len(ps):
+        mapping[ps[i + offset]] = A.unparse(a)
+    argmap = {}
+    for i, a in enumerate(call.args):
+      if i + offset < len(ps):
+        argmap[ps[i + offset]] = a
+    for kw in call.keywords:
+      if kw.arg:
+        mapping[kw.arg] = A.unparse(kw.value)
+        argmap[kw.arg] = kw.value
+    g = C.cfg_of(callee.node)
+    by_kind = {}
+    for k in g.nodes:
+      if k.ast is None:
+        continue
+      for op in _ops_of_exprs(k, k.exprs()):
+        by_kind.setdefault((op.kind, _subst(op.key, mapping)), []).append((k, op))
+    # group release alternatives that together cover every path
+    all_ops = [(k, op) for lst in by_kind.values() for k, op in lst]
+    for (kind, key), lst in by_kind.items():
+      same_key = [(k, op) for k, op in all_ops if _subst(op.key, mapping) == key]
+      nodes_same = {k.id for k, _ in same_key}
+      must = g.can_skip(g.entry, lambda n_, ids=nodes_same: n_.id in ids) is None
+      if not must:
+        continue
+      for k, op in lst:
+        v = op.value
+        if isinstance(v, ast.Name) and v.id in argmap:
+          v = argmap[v.id]
+        out.append(Op(kind, key, node, call, v))
   return out
 
 
@@ -164,6 +243,7 @@ def _local_tls_derived(fn, name):
 
 def analyse_generator(ctx, f):
   idx = ctx.index
+  set_inline_context(idx, f)
   g = C.cfg_of(f.node)
   ys = [n for n in g.nodes if n.kind == 'yield']
   if not ys:
@@ -285,7 +365,12 @@ def analyse_generator(ctx, f):
 
 def _permission_restore_free_ok(g, a, rel):
   """The only restore-free way out passes `outter_perm is None` == False."""
-  tests = [n for n in g.nodes if n.kind == 'test' and A.unparse(n.ast) == 'outter_perm is None']
+  outer = None
+  for n in g.nodes:
+    if n.kind == 'stmt' and isinstance(n.ast, ast.Assign) and A.has_call(
+        n.ast.value, lambda d: d.endswith('thread_local_get')):
+      outer = A.assigned_names(n.ast.targets[0])[0]
+  tests = [n for n in g.nodes if n.kind == 'test' and A.unparse(n.ast) == f'{outer} is None']
   if not tests or not rel:
     return False
   blocked_edges = set()
@@ -436,6 +521,7 @@ def _acquire_cannot_fail_before_push(idx, f, a):
 def analyse_class(ctx, c):
   idx = ctx.index
   en, ex = c.methods['__enter__'], c.methods['__exit__']
+  set_inline_context(idx, ex)
   ge, gx = C.cfg_of(en.node), C.cfg_of(ex.node)
   acq = [op for n in ge.nodes if n.ast is not None for op in ops_at(n) if op.kind in RELEASES]
   if not acq:
@@ -485,7 +571,8 @@ def rule_d(ctx):
   else:
     outer = A.assigned_names(reads[0].ast.targets[0])[0]
     sets = [n for n in g.nodes if any((A.call_name(c) or '').endswith('thread_local_set') for c in n.calls())]
-    tests = [n for n in g.nodes if n.kind == 'test' and A.unparse(n.ast) == f'{outer} is not None']
+    tests = [n for n in g.nodes if n.kind == 'test' and A.unparse(n.ast) in (
+        f'{outer} is not None', f'{outer} is None')]
     if not sets or not tests:
       problems.append('set / `outer is not None` test vanished')
     else:
@@ -495,17 +582,33 @@ def rule_d(ctx):
       if not isinstance(val, ast.Name):
         problems.append('installed value is not a variable')
       else:
+        # form 1: `perm = outer` re-assignment under the `outer is not None` test
         assigns = {n.id for n in g.nodes if n.kind == 'stmt' and isinstance(n.ast, ast.Assign)
                    and A.assigned_names(n.ast.targets[0]) == [val.id]
                    and isinstance(n.ast.value, ast.Name) and n.ast.value.id == outer}
-        if not assigns:
+        # form 2: `actual = perm if <outer is None> else outer`
+        ifexp_ok = False
+        for dn, dv in D.reaching_defs(g, setn, val.id):
+          if isinstance(dv, ast.IfExp):
+            t = dv.test
+            if isinstance(t, ast.Name) and t.id in g._bool_temps:
+              t = g._bool_temps[t.id][0]
+            tt = A.unparse(t)
+            if tt == f'{outer} is None' and A.unparse(dv.orelse) == outer:
+              ifexp_ok = True
+            if tt == f'{outer} is not None' and A.unparse(dv.body) == outer:
+              ifexp_ok = True
+        if ifexp_ok:
+          pass
+        elif not assigns:
           problems.append(f'`{val.id} = {outer}` re-assignment vanished')
-        for m, lab in tests[0].succ:
-          if lab == 'true':
-            seen, _ = g.reach(m, blocked_nodes=assigns, follow_exc=False)
-            seen.add(m.id)
-            if m.id not in assigns and setn.id in seen:
-              problems.append('an existing outer permission can be replaced by the inner one')
+        else:
+          for m, lab in tests[0].succ:
+            if lab == 'true':
+              seen, _ = g.reach(m, blocked_nodes=assigns, follow_exc=False)
+              seen.add(m.id)
+              if m.id not in assigns and setn.id in seen:
+                problems.append('an existing outer permission can be replaced by the inner one')
       # the read precedes the set
       seen, _ = g.reach(g.entry, blocked_nodes={reads[0].id}, follow_exc=False)
       if setn.id in seen:
@@ -541,29 +644,92 @@ SETTERS = ('thread_local_value_scope', 'thread_local_arg_scope', 'thread_local_s
 GETTERS = ('thread_local_get', 'thread_local_peek', 'thread_local_has', 'thread_local_kwargs')
 
 
-def scope_installs_param(func):
+def resolve_scope_call(idx, func, depth=2):
+  """(key_ast, value_ast, call_node_in_func) of the thread_local_value_scope
+  call a flag scope function returns, looking through private wrappers of the
+  same module; key/value are expressed in terms of `func`."""
+  for r in [n for n in ast.walk(func.node) if isinstance(n, ast.Return) and isinstance(n.value, ast.Call)]:
+    call = r.value
+    d = A.call_name(call) or ''
+    if d.endswith('thread_local_value_scope') and len(call.args) >= 2:
+      return call.args[0], call.args[1], call
+    if depth > 0 and '.' not in d:
+      tgt = idx.resolve_name_in_func(func, d, call)
+      h = idx.find_func(tgt) if tgt else None
+      if h is not None and h is not func:
+        inner = resolve_scope_call(idx, h, depth - 1)
+        if inner is not None:
+          k, v, _ = inner
+          ps = A.param_names(h.node)
+          amap = {ps[i]: a for i, a in enumerate(call.args) if i < len(ps)}
+          amap.update({kw.arg: kw.value for kw in call.keywords if kw.arg})
+          k = amap.get(k.id, k) if isinstance(k, ast.Name) else k
+          v = amap.get(v.id, v) if isinstance(v, ast.Name) else v
+          return k, v, call
+  return None
+
+
+def scope_installs_param(func, idx=None):
   """Problems (list) if a flags scope function does not hand its first
   parameter, unmodified on every path, to thread_local_value_scope."""
   g = C.cfg_of(func.node)
   problems = []
   p0 = func.node.args.args[0].arg if func.node.args.args else None
-  nodes = [(k, c) for k in g.nodes if k.ast is not None for c in k.calls()
-           if (A.call_name(c) or '').endswith('thread_local_value_scope')]
-  if not nodes:
-    return ['no thread_local_value_scope call']
-  for k, call in nodes:
-    if len(call.args) < 2 or not (isinstance(call.args[1], ast.Name) and call.args[1].id == p0):
-      problems.append('the scope does not install its argument')
-      continue
-    rds = D.reaching_defs(g, k, p0)
-    if any(val is not None or dn is not g.entry for dn, val in rds):
+  res = resolve_scope_call(idx, func) if idx is not None else None
+  if res is None:
+    nodes = [(k, c) for k in g.nodes if k.ast is not None for c in k.calls()
+             if (A.call_name(c) or '').endswith('thread_local_value_scope')]
+    if not nodes:
+      return ['no thread_local_value_scope call']
+    res = (nodes[0][1].args[0], nodes[0][1].args[1] if len(nodes[0][1].args) > 1 else None, nodes[0][1])
+  key, val, call = res
+  knode = [k for k in g.nodes if k.ast is not None and any(c is call for c in k.calls())]
+  if not (isinstance(val, ast.Name) and val.id == p0):
+    problems.append('the scope does not install its argument')
+  elif knode:
+    rds = D.reaching_defs(g, knode[0], p0)
+    if any(v is not None or dn is not g.entry for dn, v in rds):
       problems.append(f'`{p0}` is re-assigned before it is installed (the scope no longer '
                       f'installs exactly the value it was given, e.g. None = "no override")')
-  # every normal path returns the scope
   rets = [k for k in g.nodes if k.kind == 'return']
-  if any(not any(c is call for _, call in nodes for c in r.calls()) for r in rets):
+  if any(not any(c is call for c in r.calls()) for r in rets):
     problems.append('a path returns something other than the scope')
   return problems
+
+
+def scope_key(idx, module, func):
+  res = resolve_scope_call(idx, func)
+  if res is None:
+    return None
+  return _const_value(idx, module, res[0])
+
+
+def _key_values(idx, f, key_expr, depth=2):
+  """Constant values a key expression can take; a key that is a parameter of
+  a private helper is resolved at the helper's call sites."""
+  kv = _const_value(idx, f.module, key_expr)
+  if kv is not None:
+    return [(kv, f)]
+  if isinstance(key_expr, ast.Name) and key_expr.id in A.param_names(f.node) and depth > 0:
+    ps = A.param_names(f.node)
+    pos = ps.index(key_expr.id)
+    out = []
+    for g_ in f.module.funcs.values():
+      for c in A.calls_in(g_.node):
+        d = A.call_name(c) or ''
+        if d.split('.')[-1] != f.name:
+          continue
+        off = 1 if ps and ps[0] in ('self', 'cls') and d.startswith(('self.', 'cls.')) else 0
+        arg = None
+        if pos - off < len(c.args) and pos - off >= 0:
+          arg = c.args[pos - off]
+        for kw in c.keywords:
+          if kw.arg == key_expr.id:
+            arg = kw.value
+        if arg is not None:
+          out += _key_values(idx, g_, arg, depth - 1)
+    return out
+  return []
 
 
 def rule_f(ctx):
@@ -576,23 +742,22 @@ def rule_f(ctx):
       d = A.call_name(c) or ''
       last = d.split('.')[-1]
       if last in SETTERS + GETTERS + ('thread_local_del', 'thread_local_pop', 'thread_local_decrement') and c.args:
-        kv = _const_value(idx, f.module, c.args[0])
-        owner = idx.enclosing_class(f)
-        group = owner.fq if owner is not None else f.fq
         role = 'set' if last in SETTERS else ('get' if last in GETTERS else 'release')
-        if kv is None:
+        kvs = _key_values(idx, f, c.args[0])
+        if not kvs:
           ctx.ob('C17.f', f'{f.fq}#{A.unparse(c.args[0])}', False,
                  'thread-local keys are compile-time constants', f'{f.module.relpath}:{c.lineno}',
                  f'key expression `{A.unparse(c.args[0])}` is not a resolvable constant')
           continue
-        uses.setdefault(kv, []).append((role, group, f, c))
-  if len(uses) < 12:
+        for kv, user in kvs:
+          owner = idx.enclosing_class(user)
+          group = owner.fq if owner is not None else user.fq
+          uses.setdefault(kv, []).append((role, group, user, c))
+  if len(uses) < 6:
     raise AnalysisError(f'only {len(uses)} thread-local keys found')
   for kv, us in sorted(uses.items()):
     setters = sorted({g for r, g, _, _ in us if r == 'set'})
     getters = sorted({g for r, g, _, _ in us if r == 'get'})
-    # a scope function and its private helper in the same module count as one
-    # setting when they are the same class/function group
     problems = []
     if len(setters) > 1:
       problems.append(f'key is set by more than one setting: {setters}')
@@ -602,31 +767,33 @@ def rule_f(ctx):
     ctx.ob('C17.f', f'tls-key:{kv}', not problems,
            'one thread-local key per setting: exactly one scope sets it', loc,
            '; '.join(problems))
-  # flag scope/getter pairing in symbolic.flags: each public scope function
-  # uses a distinct key and the predicates read the matching getters
+  # flag scope/getter pairing in symbolic.flags
   m = idx.module('pyglove.core.symbolic.flags')
   by_key = {}
   for f in m.funcs.values():
+    if f.name.startswith('_'):
+      continue
+    k = scope_key(idx, m, f)
+    if k is not None:
+      by_key.setdefault(k, {}).setdefault('scope', []).append(f)
     for c in A.calls_in(f.node):
       d = A.call_name(c) or ''
-      if d.split('.')[-1] in ('thread_local_value_scope', 'thread_local_get') and c.args:
+      if d.split('.')[-1] == 'thread_local_get' and c.args:
         kv = _const_value(idx, m, c.args[0])
-        by_key.setdefault(kv, {}).setdefault(d.split('.')[-1], []).append(f)
+        by_key.setdefault(kv, {}).setdefault('get', []).append(f)
   for kv, roles in sorted(by_key.items(), key=lambda x: str(x[0])):
-    sc = roles.get('thread_local_value_scope', [])
-    gt = roles.get('thread_local_get', [])
+    sc = roles.get('scope', [])
+    gt = roles.get('get', [])
     problems = []
     if len(sc) != 1:
       problems.append(f'{len(sc)} scope functions use this key: {[f.name for f in sc]}')
     if len(gt) != 1:
       problems.append(f'{len(gt)} getters read this key: {[f.name for f in gt]}')
     if sc:
-      problems += scope_installs_param(sc[0])
+      problems += scope_installs_param(sc[0], idx)
     ctx.ob('C17.f', f'flags:{kv}', not problems,
            'each flag key has exactly one scope (installing its argument) and one getter',
            (sc or gt)[0].loc, '; '.join(problems))
-  # expected getter <-> scope naming table (frozen from reading; a getter that
-  # reads another setting's key is a violation)
   PAIRS = {
       'notify_on_change': 'is_change_notification_enabled',
       'track_origin': 'is_tracking_origin',
@@ -640,11 +807,10 @@ def rule_f(ctx):
     fs, fg = m.funcs.get(scope), m.funcs.get(getter)
     if fs is None or fg is None:
       raise AnalysisError(f'flags.{scope}/{getter} vanished')
-    ks = {_const_value(idx, m, c.args[0]) for c in A.calls_in(fs.node)
-          if (A.call_name(c) or '').endswith('thread_local_value_scope') and c.args}
+    ks = {scope_key(idx, m, fs)}
     kg = {_const_value(idx, m, c.args[0]) for c in A.calls_in(fg.node)
           if (A.call_name(c) or '').endswith('thread_local_get') and c.args}
-    ok = len(ks) == 1 and ks == kg
+    ok = len(ks) == 1 and None not in ks and ks == kg
     ctx.ob('C17.f', f'flags.{scope}<->{getter}', ok,
            'the getter reads the key its scope sets', fs.loc,
            f'scope sets {sorted(map(str, ks))}, getter reads {sorted(map(str, kg))}')
@@ -720,7 +886,7 @@ def run(ctx):
   ctx.consult(*FILES)
   idx = ctx.index
   gens, classes = context_managers(idx)
-  if len(gens) < 15:
+  if len(gens) < 8:
     raise AnalysisError(f'only {len(gens)} generator context managers found')
   for f in sorted(gens, key=lambda x: x.fq):
     analyse_generator(ctx, f)
